@@ -419,13 +419,15 @@ class FileModel:
                 if rt is None:
                     rt_judged = False
             doc = None
+            doc_raw = None
             if f.body and isinstance(f.body[0], ast.Expr) and isinstance(f.body[0].value, ast.Constant) \
                     and isinstance(f.body[0].value.value, str):
                 doc = inspect.cleandoc(f.body[0].value.value)
+                doc_raw = f.body[0].value.value
             d = {"name": name, "func": f.name, "line": def_line, "end_line": f.end_lineno, "name_span": name_span,
                  "scope": scope, "scope_judged": scope_judged, "autouse": autouse, "deps": deps,
                  "is_generator": is_gen, "gen_judged": gen_judged, "yield_line": ys[0] if ys else None,
-                 "return_type": rt, "rt_judged": rt_judged, "docstring": doc, "cls": cls, "style": "decorator",
+                 "return_type": rt, "rt_judged": rt_judged, "docstring": doc, "doc_raw": doc_raw, "cls": cls, "style": "decorator",
                  "async": isinstance(f, ast.AsyncFunctionDef), "def_line": def_line, "first_line": first_line}
             self.defs.append(d)
             for p in params:
